@@ -28,9 +28,8 @@ struct Req {
     delivered: bool,
     /// a SendableFrame of an earlier request was still outstanding on the slot at mark time
     stale_at_mark: bool,
-    /// a deadline expired (with retries left) while the TX side held the frame: the property's
-    /// assumption "TX services every Sendable frame before the next deadline" does not hold for
-    /// this request, and two SendableFrames for one slot can exist
+    /// a poll changed the slot from Sending to Sendable (a retry revoking the TX side's claim: the
+    /// code before fix b5bf0e20 did that; two SendableFrames for one slot could then exist)
     tx_late: bool,
 }
 
@@ -121,9 +120,9 @@ impl Obs {
                                 q.delivered = false;
                             }
                             if q.sends[0] != bytes {
-                                if q.tx_late || q.stale_at_mark {
-                                    // outside the transmission clause's assumption (see Props/C06.lean,
-                                    // retransmission_needs_tx_discipline_counterexample)
+                                if q.stale_at_mark {
+                                    // a SendableFrame left over from an earlier, abandoned request on this
+                                    // slot: the C06 concurrency window, not this request's retransmission
                                     rep.hit("outside-assumption:retransmission-differs");
                                 } else {
                                     rep.fail("c06/retransmission-differs", "a retransmission is not byte-identical to the first transmission", &g.line());
@@ -160,9 +159,12 @@ impl Obs {
                     }
                     match out {
                         "pending" => {
-                            if before[s] == 3 && after[s] == 2 {
+                            if before[s] != after[s] && !(before[s] == 4 && after[s] == 2) {
                                 q.tx_late = true;
-                                rep.hit("retry-expiry-while-sending");
+                                rep.fail("c06/retry-clobbered-state", &format!("a pending poll moved the slot from state {} to {}", before[s], after[s]), &g.line());
+                            }
+                            if before[s] == 4 && after[s] == 2 {
+                                rep.hit("retry:requeued");
                             }
                         }
                         "ready.ok" => {
@@ -621,34 +623,57 @@ fn run_drop(n: usize, retries: u64, state: u8, expired: bool, stale_outcome: u32
     rep.case(line, g.out_line());
 }
 
-/// Retry expiry while the TX side holds the frame: the stale send must not mark the slot Sent.
-fn run_retry_while_sending(n: usize, retries: u64, stale_outcome: u32, rng: &mut Rng, rep: &mut Report) {
+/// Retry expiry while the TX side holds the frame (Sending), or while the frame is still queued
+/// (Sendable) or a response is being copied (RxBusy): the poll must leave the slot alone; the TX
+/// side's send then completes normally and the request can still be answered.
+fn run_retry_while_busy(n: usize, retries: u64, state: u8, send_outcome: u32, rng: &mut Rng, rep: &mut Report) {
     let data = rng.range(36, 64) as usize;
     let mut g = Gen::new("c06", rng, n, data, Knobs { snap_every_op: false, ..Knobs::default() });
     let mut obs = Obs { serviced: false, ..Obs::default() };
-    rep.hit("retry-while-sending");
+    rep.hit(&format!("retry-while-busy:state={state}"));
     obs.op(&mut g, "al,0".into(), rep);
     obs.op(&mut g, format!("pu,0,aprd.0.16,{},-", hex(&rng.bytes(2))), rep);
     obs.op(&mut g, format!("mk,0,{retries},{T}"), rep);
     obs.op(&mut g, "po,0".into(), rep);
-    obs.op(&mut g, "tn,40".into(), rep);
+    if state >= 3 {
+        obs.op(&mut g, "tn,40".into(), rep);
+    }
+    if state == 5 {
+        obs.op(&mut g, "ts,40,0".into(), rep);
+        let f = g.sent.last().unwrap().bytes.clone();
+        let mut r = f[..16].to_vec();
+        r[6] = 0x12;
+        let l = data - 16 + 4;
+        r[14..16].copy_from_slice(&((l as u16) | 0x1000).to_le_bytes());
+        r.extend([1, f[17]]);
+        r.extend(rng.bytes(l - 2));
+        obs.op(&mut g, format!("rx,{}", hex(&r)), rep);
+    }
+    let slot = obs.reqs.get(&0).map(|q| q.slot).unwrap_or(0);
+    if states(&g)[slot] != state {
+        rep.fail("c06/harness-state", &format!("could not reach state {state}"), &g.line());
+    }
     obs.op(&mut g, format!("ad,{T}"), rep);
     let o = obs.op(&mut g, "po,0".into(), rep);
-    let slot = obs.reqs.get(&0).map(|q| q.slot).unwrap_or(0);
-    if o != "pending" || states(&g)[slot] != 2 {
-        rep.fail("c06/retry-state", "retry expiry while Sending did not leave the slot Sendable and the future pending", &g.line());
+    if o != "pending" || states(&g)[slot] != state {
+        rep.fail("c06/retry-clobbered-state", &format!("retry expiry in state {state} resolved to {o} / changed the slot state"), &g.line());
     }
-    obs.op(&mut g, format!("ts,40,{stale_outcome}"), rep);
-    if states(&g)[slot] != 2 {
-        rep.fail("c06/stale-send-marked-sent", "a send whose claim was revoked by a retry changed the slot state", &g.line());
+    if state == 3 {
+        obs.op(&mut g, format!("ts,40,{send_outcome}"), rep);
+        let want = if send_outcome == 0 { 4 } else { 2 };
+        if states(&g)[slot] != want {
+            rep.fail("c06/send-after-retry", "the send of a frame whose deadline expired meanwhile did not complete normally", &g.line());
+        }
     }
-    // the retransmission proper, then the answer
-    obs.tx_service(&mut g, rep);
-    let f = g.sent.last().unwrap().bytes.clone();
-    obs.op(&mut g, format!("rx,{}", hex(&response_for(&f, rng))), rep);
-    let o = obs.op(&mut g, "po,0".into(), rep);
-    if o != "ready.ok" {
-        rep.fail("c06/response-not-delivered", &format!("answered retransmission resolved to {o}"), &g.line());
+    if state != 5 {
+        // (re)transmission, then the answer
+        obs.tx_service(&mut g, rep);
+        let f = g.sent.last().unwrap().bytes.clone();
+        obs.op(&mut g, format!("rx,{}", hex(&response_for(&f, rng))), rep);
+        let o = obs.op(&mut g, "po,0".into(), rep);
+        if o != "ready.ok" {
+            rep.fail("c06/response-not-delivered", &format!("answered request resolved to {o}"), &g.line());
+        }
     }
     obs.drain(&mut g, rep);
     let line = g.line();
@@ -747,13 +772,15 @@ fn main() {
             }
         }
         for retries in [1u64, 2, 3, FOREVER] {
-            for stale_outcome in 0..3u32 {
-                run_retry_while_sending(n, retries, stale_outcome, &mut rng, &mut rep);
+            for state in [2u8, 3, 5] {
+                for send_outcome in 0..3u32 {
+                    run_retry_while_busy(n, retries, state, send_outcome, &mut rng, &mut rep);
+                }
             }
         }
     }
     // ---- random retry-heavy histories
-    let cases = if thorough { 40000 } else { 2500 };
+    let cases = if thorough { 100000 } else { 2500 };
     for i in 0..cases {
         let n = [1usize, 2, 4, 8][(i % 4) as usize];
         random_case(&mut rng, n, &mut rep);
